@@ -56,7 +56,7 @@ func (b *recChain) SendMessage(ctx context.Context, p []byte) (uint32, error) {
 	return 0, nil
 }
 func (b *recChain) GetAccountState(ctx context.Context, a ton.AccountID) (tlb.ShardAccount, error) {
-	return tlb.ShardAccount{}, nil
+	return tlb.ShardAccount{Account: tlb.Account{SumType: "AccountNone"}}, nil
 }
 
 // ---------------------------------------------------------------- case description
@@ -139,6 +139,8 @@ type testCase struct {
 	// actions) instead of CreateMessageBody / RawSend; Ext is the requested extended-action list (nil pointer if empty).
 	ViaX bool
 	Ext  []extAct
+	// Grid: SimpleTransfer requests from the amount-width x comment-length grid
+	Grid bool
 }
 
 // extAct is one requested wallet-v5 extended action: add | remove (extension address) | sigauth (allowed flag).
@@ -353,6 +355,9 @@ func (r *runner) runBody(tc *testCase) {
 			cfg.V5MsgType = wallet.V5MsgTypeSignedInternal
 		}
 		e["xreq"] = xreqJSON(tc.Ext)
+		if tc.Grid {
+			e["grid"] = "simple"
+		}
 		if tc.Exp != "" {
 			e["vec"] = tc.Vec
 		}
@@ -396,6 +401,17 @@ func (r *runner) runSend(tc *testCase) (bodyOut *boc.Cell, addrOut ton.AccountID
 			e["exp"] = tc.Exp
 			e["vec"] = tc.Vec
 		}
+		if tc.Grid {
+			tc.Raw = tc.Raw[:0]
+			for _, m := range tc.Fields {
+				if rm, err := tryMarshalInternal(m.sendable()); err == nil {
+					tc.Raw = append(tc.Raw, rm)
+				} else {
+					e["reqerr"] = err.Error() // the request itself cannot be encoded by the library: Send must then fail too, which is judged
+				}
+			}
+			e["n"] = len(tc.Fields)
+		}
 		roots := make([]*boc.Cell, len(tc.Raw))
 		modes := make([]int, len(tc.Raw))
 		for i, m := range tc.Raw {
@@ -437,6 +453,17 @@ func (r *runner) runSend(tc *testCase) (bodyOut *boc.Cell, addrOut ton.AccountID
 					}
 				}
 			}
+		} else if tc.Grid {
+			// Wallet.Send: seqno and init come from the (empty) account state, the expiry is now + message lifetime
+			e["via"], e["grid"], e["withinit"] = "Send", "simple", true
+			sendables := make([]wallet.Sendable, len(tc.Fields))
+			for i, m := range tc.Fields {
+				sendables[i] = m.sendable()
+			}
+			e["seqno"] = "0"
+			e["vu"] = strconv.FormatInt(time.Now().Add(wallet.DefaultMessageLifetime).Unix()-1, 10)
+			err = w.Send(context.Background(), sendables...)
+			e["vu_hi"] = strconv.FormatInt(time.Now().Add(wallet.DefaultMessageLifetime).Unix()+1, 10)
 		} else {
 			err = w.RawSend(context.Background(), tc.Seqno, time.Unix(int64(tc.Vu), 0), tc.Raw, init)
 		}
@@ -492,58 +519,7 @@ func (r *runner) runSend(tc *testCase) (bodyOut *boc.Cell, addrOut ton.AccountID
 			lib["v5verify"] = verdict(wallet.MessageV5VerifySignature(boc.Cell(m.Body.Value), pk))
 			lib["v5verify2"] = verdict(wallet.MessageV5VerifySignature(boc.Cell(m2.Body.Value), pk2))
 		}
-		// the library's decoders
-		var derr error
-		var dmsgs []wallet.RawMessage
-		u32 := func(x uint32) string { return strconv.FormatUint(uint64(x), 10) }
-		switch tc.Ver {
-		case "V3R1", "V3R2":
-			d, err := wallet.DecodeMessageV3(fresh())
-			if derr = err; err == nil {
-				lib["wid"], lib["vu"], lib["seqno"] = u32(d.SubWalletId), u32(d.ValidUntil), u32(d.Seqno)
-				dmsgs = d.RawMessages
-			}
-		case "V4R1", "V4R2":
-			d, err := wallet.DecodeMessageV4(fresh())
-			if derr = err; err == nil {
-				lib["wid"], lib["vu"], lib["seqno"] = u32(d.SubWalletId), u32(d.ValidUntil), u32(d.Seqno)
-				lib["op"] = int(d.Op)
-				dmsgs = d.RawMessages
-			}
-		case "HighLoadV2R2":
-			d, err := wallet.DecodeHighloadV2Message(fresh())
-			if derr = err; err == nil {
-				lib["wid"] = u32(d.SubWalletId)
-				lib["qid"] = strconv.FormatUint(d.BoundedQueryID, 10)
-				dmsgs = d.RawMessages
-			}
-		case "V5Beta":
-			d, err := wallet.DecodeMessageV5Beta(fresh())
-			if derr = err; err == nil {
-				lib["st"] = string(d.SumType)
-				if d.SumType == "SignedExternal" {
-					lib["wid"] = hex.EncodeToString(d.SignedExternal.WalletId[:])
-					lib["vu"], lib["seqno"] = u32(d.SignedExternal.ValidUntil), u32(d.SignedExternal.Seqno)
-				}
-				dmsgs = d.RawMessages()
-			}
-		case "V5R1":
-			d, err := wallet.DecodeMessageV5(fresh())
-			if derr = err; err == nil {
-				lib["st"] = string(d.SumType)
-				if d.SumType == "SignedExternal" && d.SignedExternal != nil {
-					lib["wid"] = u32(d.SignedExternal.WalletId)
-					lib["vu"], lib["seqno"] = u32(d.SignedExternal.ValidUntil), u32(d.SignedExternal.Seqno)
-					lib["xacts"] = xactsJSON(d.SignedExternal.ExtendedActions)
-				}
-				if d.SumType == "SignedInternal" && d.SignedInternal != nil {
-					lib["wid"] = u32(d.SignedInternal.WalletId)
-					lib["vu"], lib["seqno"] = u32(d.SignedInternal.ValidUntil), u32(d.SignedInternal.Seqno)
-					lib["xacts"] = xactsJSON(d.SignedInternal.ExtendedActions)
-				}
-				dmsgs = d.RawMessages()
-			}
-		}
+		dmsgs, derr := decodeLib(tc.Ver, fresh(), lib)
 		if derr == nil {
 			lib["dec"] = "ok"
 			lib["modes"], lib["mrows"] = rowsOf(dmsgs)
@@ -554,10 +530,98 @@ func (r *runner) runSend(tc *testCase) (bodyOut *boc.Cell, addrOut ton.AccountID
 		xm, xerr := wallet.ExtractRawMessages(ver, fresh())
 		lib["xerr"] = errClass(xerr)
 		lib["xmodes"], lib["xrows"] = rowsOf(xm)
+		// the same operations as sequences on ONE cell object, in both orders: a message that was just verified must still
+		// decode, a decoded one must still verify
+		seq := func(ops []string) []ev.M {
+			c := fresh()
+			out := make([]ev.M, 0, len(ops))
+			for _, op := range ops {
+				st := ev.M{"op": op, "res": "", "modes": []int{}, "rows": []int{}}
+				switch op {
+				case "verify":
+					if tc.Ver == "V5Beta" { // what VerifySignature does for v5r1, done here for the version it has no branch for
+						var mm tlb.Message
+						if err := tlb.Unmarshal(c, &mm); err != nil {
+							st["res"] = "rej"
+						} else {
+							st["res"] = verdict(wallet.MessageV5VerifySignature(boc.Cell(mm.Body.Value), pk))
+						}
+					} else {
+						st["res"] = verdict(wallet.VerifySignature(ver, c, pk))
+					}
+				case "extract":
+					ms, err := wallet.ExtractRawMessages(ver, c)
+					st["res"] = verdict(err)
+					st["modes"], st["rows"] = rowsOf(ms)
+				case "decode":
+					ms, err := decodeLib(tc.Ver, c, ev.M{})
+					st["res"] = verdict(err)
+					st["modes"], st["rows"] = rowsOf(ms)
+				}
+				out = append(out, st)
+			}
+			return out
+		}
+		lib["seq1"] = seq([]string{"verify", "extract", "decode", "verify", "extract"})
+		lib["seq2"] = seq([]string{"decode", "extract", "verify", "decode", "verify"})
 		e["lib"] = lib
 		r.w.Emit(e)
 	})
 	return
+}
+
+// decodeLib runs the version's Decode* function on the external message cell c and notes what it returned in lib.
+func decodeLib(ver string, c *boc.Cell, lib ev.M) (dmsgs []wallet.RawMessage, derr error) {
+	u32 := func(x uint32) string { return strconv.FormatUint(uint64(x), 10) }
+	switch ver {
+	case "V3R1", "V3R2":
+		d, err := wallet.DecodeMessageV3(c)
+		if derr = err; err == nil {
+			lib["wid"], lib["vu"], lib["seqno"] = u32(d.SubWalletId), u32(d.ValidUntil), u32(d.Seqno)
+			dmsgs = d.RawMessages
+		}
+	case "V4R1", "V4R2":
+		d, err := wallet.DecodeMessageV4(c)
+		if derr = err; err == nil {
+			lib["wid"], lib["vu"], lib["seqno"] = u32(d.SubWalletId), u32(d.ValidUntil), u32(d.Seqno)
+			lib["op"] = int(d.Op)
+			dmsgs = d.RawMessages
+		}
+	case "HighLoadV2R2":
+		d, err := wallet.DecodeHighloadV2Message(c)
+		if derr = err; err == nil {
+			lib["wid"] = u32(d.SubWalletId)
+			lib["qid"] = strconv.FormatUint(d.BoundedQueryID, 10)
+			dmsgs = d.RawMessages
+		}
+	case "V5Beta":
+		d, err := wallet.DecodeMessageV5Beta(c)
+		if derr = err; err == nil {
+			lib["st"] = string(d.SumType)
+			if d.SumType == "SignedExternal" {
+				lib["wid"] = hex.EncodeToString(d.SignedExternal.WalletId[:])
+				lib["vu"], lib["seqno"] = u32(d.SignedExternal.ValidUntil), u32(d.SignedExternal.Seqno)
+			}
+			dmsgs = d.RawMessages()
+		}
+	case "V5R1":
+		d, err := wallet.DecodeMessageV5(c)
+		if derr = err; err == nil {
+			lib["st"] = string(d.SumType)
+			if d.SumType == "SignedExternal" && d.SignedExternal != nil {
+				lib["wid"] = u32(d.SignedExternal.WalletId)
+				lib["vu"], lib["seqno"] = u32(d.SignedExternal.ValidUntil), u32(d.SignedExternal.Seqno)
+				lib["xacts"] = xactsJSON(d.SignedExternal.ExtendedActions)
+			}
+			if d.SumType == "SignedInternal" && d.SignedInternal != nil {
+				lib["wid"] = u32(d.SignedInternal.WalletId)
+				lib["vu"], lib["seqno"] = u32(d.SignedInternal.ValidUntil), u32(d.SignedInternal.Seqno)
+				lib["xacts"] = xactsJSON(d.SignedInternal.ExtendedActions)
+			}
+			dmsgs = d.RawMessages()
+		}
+	}
+	return dmsgs, derr
 }
 
 // libVerify asks the library whether a (possibly changed) signed body verifies under pk.
@@ -741,15 +805,113 @@ func randFields(rng *rand.Rand, small bool) reqMsg {
 
 // marshalInternal is what Wallet.SendV2 does with a Sendable before calling RawSendV2.
 func marshalInternal(s wallet.Sendable) wallet.RawMessage {
+	rm, err := tryMarshalInternal(s)
+	if err != nil {
+		panic(err.Error())
+	}
+	return rm
+}
+
+func tryMarshalInternal(s wallet.Sendable) (wallet.RawMessage, error) {
 	msg, mode, err := s.ToInternal()
 	if err != nil {
-		panic(fmt.Sprintf("ToInternal: %v", err))
+		return wallet.RawMessage{}, fmt.Errorf("ToInternal: %v", err)
 	}
 	c := boc.NewCell()
 	if err := tlb.Marshal(c, msg); err != nil {
-		panic(fmt.Sprintf("marshal internal message: %v", err))
+		return wallet.RawMessage{}, fmt.Errorf("marshal internal message: %v", err)
 	}
-	return wallet.RawMessage{Message: c, Mode: mode}
+	return wallet.RawMessage{Message: c, Mode: mode}, nil
+}
+
+// ---- the SimpleTransfer grid: amount byte length 0..8 (0, 2^8k - 1, 2^8k) x comment length (every length 60..80 and 120..130)
+type gridCell struct {
+	Amount uint64
+	CLen   int
+}
+
+func gridCells() (all, critical []gridCell) {
+	amounts := []uint64{0}
+	for k := 1; k <= 8; k++ {
+		if k == 8 {
+			amounts = append(amounts, ^uint64(0))
+		} else {
+			amounts = append(amounts, uint64(1)<<(8*k)-1)
+		}
+	}
+	for k := 0; k <= 7; k++ {
+		amounts = append(amounts, uint64(1)<<(8*k))
+	}
+	lens := []int{0, 1, 2, 5, 10, 20, 30, 40, 50, 55, 85, 90, 100, 110, 115, 135, 140}
+	for l := 60; l <= 80; l++ {
+		lens = append(lens, l)
+	}
+	for l := 120; l <= 130; l++ {
+		lens = append(lens, l)
+	}
+	for _, a := range amounts {
+		for _, l := range lens {
+			g := gridCell{a, l}
+			all = append(all, g)
+			if a >= 1<<31 && l >= 62 && l <= 78 { // around the place where a short comment may move into the message cell
+				critical = append(critical, g)
+			}
+		}
+	}
+	return
+}
+
+func (r *runner) runGrid(rng *rand.Rand, o Opts, next func() string) {
+	all, critical := gridCells()
+	per := map[string][]gridCell{}
+	for vi, ver := range Versions {
+		for j, g := range all {
+			if o.Tier == "thorough" {
+				if (j+vi)%o.Shards == o.Shard {
+					per[ver] = append(per[ver], g)
+				}
+			} else if j%o.Shards == o.Shard && (j/o.Shards)%len(Versions) == vi {
+				per[ver] = append(per[ver], g)
+			}
+		}
+		if o.Tier != "thorough" {
+			for j, g := range critical {
+				if (j+vi)%o.Shards == o.Shard {
+					per[ver] = append(per[ver], g)
+				}
+			}
+		}
+	}
+	for _, ver := range Versions {
+		size := 24
+		if MaxOf[ver] == 4 {
+			size = 4
+		}
+		cellsOf := per[ver]
+		for from := 0; from < len(cellsOf); from += size {
+			to := from + size
+			if to > len(cellsOf) {
+				to = len(cellsOf)
+			}
+			tc := randCase(rng, next(), ver, 0)
+			tc.Grid, tc.MsgType, tc.WithInit = true, "ext", false
+			tc.Opts.Sub = nil
+			for _, g := range cellsOf[from:to] {
+				m := reqMsg{Kind: "simple", Mode: wallet.DefaultMessageMode, Bounce: rng.Intn(2) == 0, Wc: []int{0, -1}[rng.Intn(2)], Amount: g.Amount}
+				rng.Read(m.Addr[:])
+				b := make([]byte, g.CLen)
+				for i := range b {
+					b[i] = "abcdefghijklmnopqrstuvwxyz 0123456789"[rng.Intn(37)]
+				}
+				m.Comment = string(b)
+				tc.Fields = append(tc.Fields, m)
+			}
+			r.runBody(tc)
+			if (from/size)%3 == 0 { // every third group also through Wallet.Send itself
+				r.runSend(tc)
+			}
+		}
+	}
 }
 
 func pickCount(rng *rand.Rand, ver string, big bool) int {
@@ -907,6 +1069,7 @@ func Drive(w *ev.Writer, o Opts) {
 			r.runSend(overLimit(rng, tc))
 		}
 	}
+	r.runGrid(rng, o, next)
 	// wallet v5r1 with extended actions (add / remove extension, signature auth) beside 0 / 1 / many out messages
 	nX := 4
 	if o.Tier == "thorough" {
